@@ -90,6 +90,7 @@ def main(a):
         # every hand mutant and every seeded change against the quick tier; whatever the quick tier misses is re-run
         # against the thorough tier; writes mutants/RESULTS.md
         rows = []
+        retired = []
         for prop in sorted(os.listdir(os.path.join(ROOT, "mutants"))):
             if not os.path.isdir(os.path.join(ROOT, "mutants", prop)):
                 continue
@@ -98,6 +99,9 @@ def main(a):
         for i in sorted(os.listdir(os.path.join(ROOT, "seeded"))):
             d = os.path.join(ROOT, "seeded", i)
             meta = json.load(open(os.path.join(d, "meta.json")))
+            if meta.get("retired"):
+                retired.append((i, meta["retired"]))
+                continue
             for prop in meta.get("check_with", [meta["property"]]):
                 rows.append(("seeded", i, prop, os.path.join(d, "patch.diff"), meta.get("needs_to_manifest", "")))
         out = ["# Sensitivity results", "", "Generated by `tools/mut.py all` on /repo @ %s.  Every change compiles and keeps the repository's own 46 tests green (column suite)." % sh(["git", "rev-parse", "--short", "HEAD"], cwd=REPO)[1].strip(),
@@ -116,6 +120,8 @@ def main(a):
             print("%-8s %-8s %-40s %s %s" % (r["status"], th, name, prop, sig), flush=True)
             out.append("| %s | %s | %s | %s | %s | %s | `%s` | %s |" % (prop, name, kind, r.get("suite"), r["status"], th, sig.replace("|", "\\|"), needs.replace("|", "/")))
         n = len(rows); cq = sum(1 for l in out[7:] if "| caught |" in l.split("| pass ")[-1][:12] or "| caught |" in l)
+        if retired:
+            out += ["", "Retired seeded changes (kept under seeded/ for the record, not run):", ""] + ["* %s - %s" % r for r in retired]
         open(os.path.join(ROOT, "mutants", "RESULTS.md"), "w").write("\n".join(out) + "\n")
     os.makedirs(os.path.join(ROOT, "mutants"), exist_ok=True)
     with open(os.path.join(ROOT, "mutants", "last_run.jsonl"), "a") as f:
